@@ -23,7 +23,7 @@ HDR = "import LspVerif.Spec.Wire\nimport LspVerif.Props.C04\nimport GenMeta\nimp
 
 EVAL = HDR + """#eval do
   let ms := rustStructsOK Gen.model Gen.rust Gen.model.structures ++ rustRestOK Gen.model Gen.rust
-  for m in ms do IO.println s!"MISMATCH\\t{m.site}\\t{m.aspect}\\t{m.expected}\\t{m.actual}"
+  for m in ms do IO.println s!"MISMATCH\\t{m.site}\\t{m.aspect}\\t{m.expected.replace "\\n" " "}\\t{m.actual.replace "\\n" " "}"
   for s in Gen.rust.structs do
     for f in s.fields do
       if f.wireHint != f.wire s then IO.println s!"MISMATCH\\t{s.name.toString}.{f.ident.toString}\\twire-hint\\t{(f.wire s).toString}\\t{f.wireHint.toString}"
@@ -79,7 +79,7 @@ theorem C07 : (∀ s ∈ Gen.model.structures, rustStructMismatches Gen.model Ge
             f = common.write_module(ctx.work, "Eval", EVAL)
             import subprocess
             q = subprocess.run(["lean", str(f)], capture_output=True, text=True, env=common.lean_env(ctx.work), cwd=str(ctx.work))
-            mm = [l.split("\t")[1:] for l in q.stdout.splitlines() if l.startswith("MISMATCH\t")]
+            mm = [(l.split("\t")[1:] + ["", "", "", ""])[:4] for l in q.stdout.splitlines() if l.startswith("MISMATCH\t")]
             for site, aspect, exp, act in mm[:40]:
                 ctx.violation(f"C07|{site}|{aspect}", f"lib.rs as emitted by the rust plugin: {site} {aspect}: expected {exp[:160]}, found {act[:160]}",
                               {"item": site, "aspect": aspect, "expected": exp, "found": act,
